@@ -25,6 +25,10 @@ def rules(chk, db):
     # a malformed value inside an entry must fail in the value's own decoder: the frame would otherwise swallow the damage as padding
     from .. import encrules
     encrules.read_rules(chk, db, want=('GRD',))
+    # the surplus of an entry is skipped through the reader's checked Skip: it must refuse what is not there
+    chk.rule('G', 'the checked buffer reader refuses a transfer / skip that exceeds what remains', minimum=2)
+    chk.rule('E', 'refusal returns ReadLimitReached and has no effect', minimum=2)
+    rwrules.check_buffer_class(chk, db, 'nop::PedanticBufferReader', {'T': None, 'G': 'G', 'E': 'E', 'C': None})
     # the hash that is compared is the full 64-bit value that was decoded (likewise ids and counts)
     chk.rule('NR', 'no narrowing of a decoded hash / id / size / count in the table encoder', minimum=3)
     encrules.narrowing(chk, db, 'NR', {'ReadPayload', 'Read', 'WritePayload', 'Write', 'Size'})
